@@ -71,6 +71,7 @@ def ctype_std(em, t):
         em.vstd_req.setdefault(nm, ('arr', (e, nn)))
         return 'struct ' + nm
     if n == 'std::bitset': return 'unsigned long'      # bitset<N>, N <= 64: the bits of an unsigned long
+    if n == 'std::unique_ptr' and t.args: return em.ctype(_noconst(t.args[0])) + ' *'      # the owned pointer; ownership and deletion are not represented
     if n.startswith('std::bitset<') and n.endswith('::reference'): return '_Bool'      # proxy of a bit that is only read: its value
     if n in ('std::basic_string', 'std::__cxx11::basic_string', 'std::basic_string_view'): return 'ovm_string'
     if n in ('std::basic_ostream', 'std::basic_istream', 'std::basic_ios', 'std::basic_iostream'): return 'ovm_stream'
@@ -89,6 +90,7 @@ def trivially_copyable_std(em, t):
     if iter_info(em, t) is not None: return True
     if n == 'std::_Bit_reference': return True
     if n == 'std::bitset' or (n.startswith('std::bitset<') and n.endswith('::reference')): return True
+    if n == 'std::unique_ptr': return True
     if n == 'std::pair': return em.is_trivially_copyable(t.args[0]) and em.is_trivially_copyable(t.args[1])
     if n == 'std::array': return em.is_trivially_copyable(t.args[0])
     if n in ('std::basic_string', 'std::__cxx11::basic_string', 'std::basic_string_view', 'std::initializer_list'): return True
@@ -314,6 +316,10 @@ def member_call(em, n, cnode, obj, isarrow, args):
         em.fail(n, 'std::%s::%s/%d not modelled' % (ot.name, name, len(real)))
     if ot.name.startswith('std::bitset<') and ot.name.endswith('::reference') and name.startswith('operator '):
         return '(*%s)' % objp        # conversion of the bit proxy to bool: the value read
+    if ot.name == 'std::unique_ptr':
+        if name == 'get' and not real: return '(*%s)' % objp
+        if name.startswith('operator ') and not real: return '((*%s) != 0)' % objp
+        em.fail(n, 'std::unique_ptr::%s not modelled' % name)
     if ot.name == 'std::bitset':
         nb = int(re.sub(r'[uUlL]', '', str(ot.args[0])))
         o = '(*%s)' % objp
@@ -476,6 +482,10 @@ def operator_call(em, n, rd, args):
         if op in ('operator==', 'operator!='):
             s = '%s_eq(%s, %s)' % (c, addr_of(em.E(args[0])), addr_of(em.E(args[1])))
             return s if op == 'operator==' else '(!%s)' % s
+    if t0.name == 'std::unique_ptr':
+        if op == 'operator->': return em.Eval(args[0])
+        if op == 'operator*': return '(*%s)' % em.Eval(args[0])
+        if op in ('operator==', 'operator!=') and len(args) == 2: return '(%s %s %s)' % (em.Eval(args[0]), op[8:], em.Eval(args[1]))
     if t0.name == 'std::bitset' and op == 'operator[]':
         return '(((%s >> (%s)) & 1UL) != 0)' % (em.Eval(args[0]), em.Eval(args[1]))
     if t0.name == 'std::_Bit_reference':
